@@ -100,6 +100,9 @@ def _typed_equal(a, b, path=""):
     return out
 
 
+_REG = [0]
+
+
 def _roundtrip(ctx, iso, label, spec, extra_checks=None):
     from pygaps.parsing.json import isotherm_from_json
     from pygaps.parsing.json import isotherm_to_json
@@ -116,11 +119,23 @@ def _roundtrip(ctx, iso, label, spec, extra_checks=None):
     except Exception as exc:
         ctx.violation("%s/export-not-json" % label, "export is not a valid JSON document", exc=exc, spec=spec)
         return None
+    # every other isotherm whose material carries properties is imported into a session that already knows a material of that
+    # name with other values (registered by hand or loaded from a database): the document's values are the isotherm's
+    import pygaps
+    registered = None
+    _REG[0] += 1
+    if iso.material.properties and _REG[0] % 2 == 0 and not any(mm is iso.material for mm in pygaps.MATERIAL_LIST):
+        other = {k: (v * 1.5 + 1 if isinstance(v, (int, float)) and not isinstance(v, bool) else "other") for k, v in iso.material.properties.items()}
+        registered = pygaps.Material(iso.material.name, store=True, **other)
+        ctx.count("import_into_session", "material of that name registered with other property values")
     try:
         back = isotherm_from_json(s)
     except Exception as exc:
         ctx.violation("%s/import-raises/%s" % (label, type(exc).__name__), "isotherm_from_json raised on pyGAPS' own export", exc=exc, spec=spec)
         return None
+    finally:
+        if registered is not None:
+            pygaps.MATERIAL_LIST[:] = [mm for mm in pygaps.MATERIAL_LIST if mm is not registered]
     if type(back) is not type(iso):
         ctx.violation("%s/class-changed" % label, "re-imported isotherm is of another class", got=type(back).__name__, spec=spec)
         return None
@@ -299,6 +314,10 @@ def _run_model(case, ctx):
         how = "fitted"
     else:
         P = GM.random_params(name, r)
+        if case["seed"] % 2 == 0 and name in ("DA", "GAB"):
+            # a parameter outside the default fitting bounds (legitimate: fitted with user-supplied bounds, or typed in)
+            P = dict(P, **({"m": round(r.uniform(3.2, 5.0), 4)} if name == "DA" else {"K": round(r.uniform(1.05, 1.3), 4)}))
+            ctx.count("models", name + "/parameter-outside-default-bounds")
         if name in GM.PRESSURE_EXPLICIT:
             lo, hi = GM.loading_window(name, P)
             rng = dict(loading_range=(hi * 0.05, hi * 0.7), pressure_range=(0.01, 1.5))
@@ -306,6 +325,7 @@ def _run_model(case, ctx):
             lo, hi = GM.pressure_window(name, P)
             rng = dict(pressure_range=(hi * 0.01, hi * 0.8), loading_range=(0.05, 2.5))
         model = GM.make_model(name, P, rmse=round(r.uniform(0, 0.2), 6), temperature=T, **rng)
+        model.params.update(P)  # (as a fit leaves them: whatever the constructor made of its arguments)
         iso = pygaps.ModelIsotherm(model=model, material=copy.deepcopy(mat), adsorbate=ads_name, temperature=Tst, **units, **copy.deepcopy(meta))
         how = "hand-built"
     spec = {"model": name, "params": dict(iso.model.params), "units": dict(iso.units), "meta": meta, "how": how}
